@@ -125,9 +125,10 @@ def build(tier):
     ctor = lambda: Fn('pstate_ctor', 'src/program/state.cpp', 'solver_state_t', flt='solver_state_t::solver_state_t',
                       select=lambda d: len(astload.param_types(d)) == 3, self_struct='struct nv_pstate', **COMMON)
     smax = lambda: Fn('make_smax', TU, 'make_smax', flt='make_smax', **COMMON)
-    swi = lambda: Fn('solve_with_inequality', TU, 'solve_with_inequality', flt='solver_t::solve_with_inequality', self_struct='struct nv_solver',
+    swi = lambda cname='solve_with_inequality': Fn(cname, TU, 'solve_with_inequality', flt='solver_t::solve_with_inequality', self_struct='struct nv_solver',
                      **dict(COMMON, calls=[(r'^make_smax\|', 'nv_make_smax_any')] + CALLS))
     swo = lambda: Fn('solve_without_inequality', TU, 'solve_without_inequality', flt='solver_t::solve_without_inequality', self_struct='struct nv_solver', **COMMON)
+    done_abs = lambda: Fn('solver_done', TU, 'done', flt='solver_t::done', **dict(COMMON, members=FEAS_ABS + MEMBERS))
     targets = [
         Target('program_feasible', [feas()], H),
         Target('solver_done', [done(), feas()], H, replace=['program_feasible']),
@@ -135,7 +136,8 @@ def build(tier):
         Target('pstate_ctor', [ctor()], H),
         Target('make_smax', [smax()], H),
         # done() is inlined (its own contract is target solver_done); inside it program_t::feasible is the abstract function
-        Target('solve_with_inequality', [swi(), Fn('solver_done', TU, 'done', flt='solver_t::done', **dict(COMMON, members=FEAS_ABS + MEMBERS)), ctor()], H),
+        Target('solve_with_inequality', [swi(), done_abs(), ctor()], H),
+        Target('solve_with_inequality_adv', [swi('solve_with_inequality_adv'), done_abs(), ctor()], H),
         Target('solve_without_inequality', [swo(), ctor()], H),
     ]
     return {
